@@ -214,6 +214,11 @@ def marathon(rec, rng, prop, n_texts=4200, altered_key="history/earlier-result-a
                     p.parse(bad)
                 except Exception:
                     pass
+        if i % 700 == 350:
+            # the parser goes on as a copy of itself (a worker process unpickles it, a search deep-copies its state)
+            from . import copies as _CP
+
+            p = _CP.routed(p, "parser", every=1, shallow=True)
         if i % 613 == 5:
             try:
                 p.parse(f"{i} + * {i}")
